@@ -298,7 +298,8 @@ theorem jaccardOfCounts_real (n e : ℝ) :
   unfold jaccardOfCounts; arith_norm
 
 theorem alternativeJaccardOfCounts_real (n e : ℝ) :
-    alternativeJaccardOfCounts n e = if n = 0 then 0 else -Real.logb 2 (e / n) := by
+    alternativeJaccardOfCounts n e =
+      if n = 0 then 0 else if e = 0 then (f32maxNat : ℝ) else -Real.logb 2 (e / n) := by
   unfold alternativeJaccardOfCounts; arith_norm
 
 /-! ### sums of non-negative terms, Cauchy–Schwarz on lists -/
